@@ -444,6 +444,38 @@ def write_evidence(prop, tier, seed, coverage, assumptions, wall_s, violations, 
     return ev
 
 
+def apalache_inductive(spec, cinit='CInit', init='Init', indinit='IndInit', indinv='IndInv', laws='Laws', timeout=600):
+    """Unbounded check of an inductive invariant with Apalache (integer / set level specs only):
+    Init => IndInv, IndInv /\ Next => IndInv', IndInv => Laws.  Returns a dict for the evidence; raises MachineryError when a
+    run does not finish, returns {'skipped': ...} when apalache-mc is not installed."""
+    exe = shutil.which('apalache-mc')
+    if not exe:
+        return {'spec': spec, 'tool': 'apalache-mc', 'skipped': 'apalache-mc not on PATH'}
+    out = tempfile.mkdtemp(prefix='apalache-', dir=SCRATCH_ROOT)
+    steps = [('Init => IndInv', ['--init=' + init, '--inv=' + indinv, '--length=0']),
+             ('IndInv /\\ Next => IndInv\'', ['--init=' + indinit, '--inv=' + indinv, '--length=1']),
+             ('IndInv => Laws', ['--init=' + indinit, '--inv=' + laws, '--length=0'])]
+    res = {'spec': spec, 'tool': 'apalache-mc', 'steps': []}
+    try:
+        for name, args in steps:
+            t0 = time.time()
+            try:
+                p = subprocess.run([exe, 'check', '--cinit=' + cinit] + args + ['--out-dir=' + out, spec + '.tla'], cwd=SPEC,
+                                   stdout=subprocess.PIPE, stderr=subprocess.STDOUT, timeout=timeout)
+            except subprocess.TimeoutExpired:
+                raise MachineryError('apalache-mc timed out on %s (%s)' % (spec, name))
+            txt = p.stdout.decode(errors='replace')
+            ok = 'The outcome is: NoError' in txt and p.returncode == 0
+            bad = 'The outcome is: Error' in txt
+            if not ok and not bad:
+                raise MachineryError('apalache-mc failed on %s (%s):\n%s' % (spec, name, txt[-1500:]))
+            res['steps'].append({'obligation': name, 'holds': ok, 'wall_s': round(time.time() - t0, 1)})
+    finally:
+        shutil.rmtree(out, ignore_errors=True)
+    res['ok'] = all(s_['holds'] for s_ in res['steps'])
+    return res
+
+
 def digest(obj):
     return hashlib.sha256(json.dumps(obj, sort_keys=True, default=str).encode()).hexdigest()[:16]
 
